@@ -9,6 +9,7 @@ mod fixture;
 mod c01;
 mod c02;
 mod c08;
+mod c09;
 mod c10;
 mod c13;
 mod c14;
@@ -47,6 +48,9 @@ fn main() {
         "C07" => c01::run_c07(&mut r),
         "C02" => c02::run(&mut r),
         "C08" => c08::run(&mut r),
+        "C09" => c09::run_c09(&mut r),
+        "C05" => { c10::run_c05(&mut r); c09::run_c09(&mut r) }
+        "C11" => c09::run_c11(&mut r),
         "C10" => c10::run_c10(&mut r),
         "C13" => c13::run(&mut r),
         "C15" => c15::run(&mut r),
